@@ -11,7 +11,7 @@ from . import common, e2e, engine, obs_result, wire
 from .common import Ctx, Failure, Mismatch, Result
 from .gen import ops_gen, schema_gen, values
 
-DRIVER = "C01"
+DRIVER = "C01"  # the same handler is linked into drv_c05
 
 TRIGGER_FEATURES: Dict[str, Dict[str, float]] = {
     "dupCompositeKey": {"dup_key": 0.5},
